@@ -234,9 +234,10 @@ from joblib._parallel_backends import ParallelBackendBase  # noqa: E402
 
 
 class _SimFuture:
-    __slots__ = ("func", "callback", "idx", "done", "result", "error")
+    __slots__ = ("func", "callback", "idx", "done", "result", "error", "backend")
 
-    def __init__(self, func, callback, idx):
+    def __init__(self, func, callback, idx, backend=None):
+        self.backend = backend
         self.func = func
         self.callback = callback
         self.idx = idx
@@ -245,7 +246,7 @@ class _SimFuture:
         self.error = None
 
     def get(self, timeout=None):  # pragma: no cover - joblib falls back to this
-        return _BACKEND_STATE["backend"].retrieve_result(self)
+        return self.backend.retrieve_result(self)
 
 
 _BACKEND_STATE = {"backend": None, "script": None, "stats": None}
@@ -288,7 +289,7 @@ class HostSimBackend(ParallelBackendBase):
         return max(1, int(self.script.get("batch", 1)))
 
     def submit(self, func, callback=None):
-        f = _SimFuture(func, callback, self.submitted)
+        f = _SimFuture(func, callback, self.submitted, self)
         self.submitted += 1
         self.pending.append(f)
         return f
@@ -335,6 +336,12 @@ class HostSimBackend(ParallelBackendBase):
         if out.error is not None:
             raise out.error
         return out.result
+
+    def get_nested_backend(self):
+        # nested Parallel calls (an estimator with n_jobs inside a task) stay inside the
+        # simulator: never a real thread pool
+        nb = HostSimBackend(nesting_level=(getattr(self, "nesting_level", 0) or 0) + 1)
+        return nb, None
 
     def abort_everything(self, ensure_ready=True):
         self.pending = []
